@@ -8,6 +8,9 @@ use vkit::refmath as rf;
 use vkit::vk::{self, MatN};
 use vkit::*;
 
+mod sized;
+mod structured;
+
 fn distinct_nonzero<S: Dom, const N: usize>(a: &[[S; N]; N]) -> usize {
     let mut v: Vec<S> = Vec::new();
     for r in a {
@@ -479,15 +482,19 @@ pub fn property() -> Property {
     let m2 = "Vec4::mat2_{rows,cols}_{mul,adj_mul,mul_adj} vs A*B, adj(A)*B, A*adj(B) on 2x2 arrays";
     tape!("mat2-helpers-rat", m2, 32, 20_000, 400_000, mat2_helpers::<Rat>);
     tape!("mat2-helpers-f64", m2, 48, 10_000, 200_000, mat2_helpers::<f64>);
+    checks.extend(sized::checks());
+    checks.extend(structured::checks());
     tape!("mat2-helpers-u32", "the six Vec4-as-2x2 helpers on an UNSIGNED element type: whenever every entry of the true result (i128 model) is representable it must be returned -- no detour through a negated operand", 24, 20_000, 400_000, mat2_helpers_unsigned);
     Property {
         id: "C01",
-        rule: "cases are byte tapes generated by proptest (uniform bytes, fixed seed) decoded to matrices/vectors/scalars with small rational or float entries; a case is non-trivial when both operands have >= 3 distinct non-zero entries, neither is symmetric and A*B != B*A (element-wise checks: all entries pairwise distinct opaque terms); distinct = distinct consumed tape prefix per check",
+        rule: "cases are byte tapes generated by proptest (uniform bytes, fixed seed) decoded to matrices/vectors/scalars with small rational or float entries; a case is non-trivial when both operands have >= 3 distinct non-zero entries, neither is symmetric and A*B != B*A (element-wise checks: all entries pairwise distinct opaque terms); distinct = distinct consumed tape prefix per check; sized-*: A, B non-symmetric, A*B != B*A and A*B non-symmetric for n = 2, 3 and 4 at once; structured-*: index-enumerated (size x position x structure kind x sub-position x variant), non-trivial when the structured operand(s) are neither identity nor zero, the generic operand is non-symmetric and the product differs from both operands",
         assumptions: &[
             "rustc and the proptest runner/shrinker are trusted",
             "vkit::refmath (sum-of-products, Leibniz determinant, adjugate) is the oracle; it never calls vek",
             "matrices are built and read through the public rows/cols fields (row-major: rows.x is row 0; column-major: cols.x is column 0)",
             "exact rational arithmetic (Rat over i128); cases that overflow i128 are discarded and counted",
+        "sized-*: the element types are exact commutative rings (Z/251; wrapping integers; jets = value + partials with e_i e_j = 0 over wrapping integers), so the sum-of-products identity holds whatever the association / operand order or the use of mul_add; only A+B among the element-wise operators is run on them (they have no division)",
+        "structured-*: floats are compared with 8 eps * n * max|L| * max|R| (any association order, with or without fma); the sign of a zero is not asserted",
         ],
         checks,
         max_discard_frac: 0.2,
